@@ -366,6 +366,9 @@ where
         }
 
         let packet_id = PacketIdType::from_buffer(&data[0..buffer_size]);
+        if packet_id.is_zero() {
+            return Err(MqttError::MalformedPacket);
+        }
         let packet_id_buf = packet_id.to_buffer();
         cursor += buffer_size;
 
